@@ -645,7 +645,7 @@ def corrupt(rng, text: str, n_edits: int | None = None) -> tuple[str, list]:
 # ------------------------------------------------------------------ variants
 
 
-def variant(rng, text: str) -> str:
+def variant(rng, text: str, prefer: str | None = None) -> str:
     """A sibling of a project: same header (dates, resolution), one or two small semantic edits.
     Processing variants of one project in one interpreter is the natural history for anything keyed on
     project-level values."""
@@ -654,6 +654,8 @@ def variant(rng, text: str) -> str:
     lines = text.split("\n")
     for _ in range(1 + (rng.random() < 0.4)):
         k = rng.randrange(9)
+        if prefer == "calendar":  # same project, different calendar: vacation added / removed, start moved by a few days
+            k = _pick(rng, [0, 0, 1, 8])
         m = re.search(r"project\s+\w+\s+\"[^\"]*\"\s+(\d{4})-(\d{2})-(\d{2})", text)
         try:
             base = date(int(m.group(1)), int(m.group(2)), int(m.group(3))) if m else date(2025, 1, 6)
